@@ -25,7 +25,7 @@ func init() {
 
 // shared tensors of one execution
 type c18shared struct {
-	M, MT, SV, V, V2, MK *tensor.Dense
+	M, MT, SV, V, V2, MK, CM *tensor.Dense
 	all                  []*tensor.Dense
 	fps                  []uint64
 }
@@ -41,7 +41,8 @@ func c18Setup() *c18shared {
 	s.V = tensor.New(tensor.WithShape(3), tensor.WithBacking([]float64{1, -2, 3}))
 	s.V2 = tensor.New(tensor.WithShape(2), tensor.WithBacking([]float64{2, 5}))
 	s.MK = tensor.New(tensor.WithShape(4), tensor.WithBacking([]float64{4, 1, 3, 2}, []bool{false, true, false, false}))
-	s.all = []*tensor.Dense{s.M, s.MT, s.SV, s.V, s.V2, s.MK, root}
+	s.CM = tensor.New(tensor.WithShape(2, 2), tensor.WithBacking([]complex128{1 + 2i, 2, 3 - 1i, 4})) // built without Of(): no type registration
+	s.all = []*tensor.Dense{s.M, s.MT, s.SV, s.V, s.V2, s.MK, root, s.CM}
 	for _, t := range s.all {
 		s.fps = append(s.fps, tensor.VerifQuickHash(t))
 	}
@@ -49,7 +50,7 @@ func c18Setup() *c18shared {
 }
 
 func (s *c18shared) check() string {
-	names := []string{"M", "MT", "SV", "V", "V2", "MK", "root(SV)"}
+	names := []string{"M", "MT", "SV", "V", "V2", "MK", "root(SV)", "CM"}
 	for i, t := range s.all {
 		if tensor.VerifQuickHash(t) != s.fps[i] {
 			return fmt.Sprintf("shared tensor %s was modified: now %s", names[i], atlas.MetaString(t))
@@ -123,6 +124,7 @@ func c18Ops() []c18op {
 		{"GtScalar(SV)", func(s *c18shared) string { return dig(tensor.Gt(s.SV, 7.0)) }},
 		{"Neg(MT)", func(s *c18shared) string { return dig(tensor.Neg(s.MT)) }},
 		{"Sum(M,0)", func(s *c18shared) string { return dig(tensor.Sum(s.M, 0)) }},
+		{"Sum(CM,1)", func(s *c18shared) string { return dig(tensor.Sum(s.CM, 1)) }}, // a 16-byte element type: result tensors are made with Of(dtype)
 		{"Sum(SV)", func(s *c18shared) string { return dig(tensor.Sum(s.SV)) }},
 		{"Max(MT,1)", func(s *c18shared) string { r, e := s.MT.Max(1); return dig(r, e) }},
 		{"Argmax(MT,1)", func(s *c18shared) string { return dig(tensor.Argmax(s.MT, 1)) }},
